@@ -34,6 +34,15 @@ CLAIMED = {
         "Trusted: Lean kernel + standard axioms; harness's own 3-valued evaluator for rule atoms; SQL engines; WFKeys (distinct composite ids) is a hypothesis.",
         "DESIGN.md §6 C01",
     ),
+    "C02": (
+        "Lean 4 theorems about a model of the scoring SQL (gamma CASE, Bayes-factor CASE, both TF-divisor CASE shapes, product with the prior, log2, match-probability CASE, threshold): "
+        "first-TRUE level selection (NULL conditions fall through), TF divisor = max(tf_l, tf_r, minimum_u), documented TF factor, intermediate columns multiply to the Bayes factor, "
+        "additive Fellegi-Sunter formula over the reals, probability = logistic in (0,1), infinite factor => probability 1, weight/probability thresholds keep exactly the rows at or above. "
+        "The same definitions run at Float in the driver. Tie: every retained column of predict() vs the model on generated data x models (dict and creator construction, TF lookups, u=0, thresholds on scores); "
+        "closed-form log2 oracle on the real output.",
+        "Trusted: Lean kernel + standard axioms, Mathlib's real analysis (logb, rpow); floating-point rounding not modelled (1e-9 comparison); level conditions evaluated by the harness.",
+        "DESIGN.md §6 C02",
+    ),
 }
 PENDING_REASON = "check not built yet (model/theorems/correspondence under construction per DESIGN.md §10b); not claimed until all three exist"
 
